@@ -225,11 +225,13 @@ func c06DNSGen(r *rand.Rand, emit vutil.Emit) {
 
 		qt := 1
 		switch p := r.IntN(100); {
-		case p < 45:
-		case p < 82:
+		case p < 40:
+		case p < 72:
 			qt = 28
 		default:
-			qt = vutil.Pick(r, []int{16, 65, 15})
+			// TXT, HTTPS, MX, ANY and the DNSSEC / meta / infrastructure types: DS,
+			// DNSKEY, RRSIG, NSEC, NSEC3, CDS, CDNSKEY, SVCB, PTR, SRV, NS, SOA, CNAME
+			qt = vutil.Pick(r, []int{16, 65, 15, 255, 43, 48, 46, 47, 50, 59, 60, 64, 12, 33, 2, 6, 5, 43, 48})
 		}
 
 		f := []string{"C06.dns", vutil.Itoa(len(tbl))}
